@@ -11,6 +11,13 @@ ops (one per line):
         B = node:host:port   T = name|tid|err|internal|P,..   P = id:err:leader:epoch:r+..:i+..:o+..
   meta <v> <req>        req = all | empty | name@tid,name@tid,..      (name ~ = nil)
   coord <v> | nrmeta <v> <req> | nrcoord <v>
+  conn mode=static|store live=<n> dead=<n> cached=0|1 <step> ...
+        ONE client connection through `handleConnection` (dispatch model `KafVerif.ProxyDispatch.step`);
+        steps: M/<v>/<req>  MB/<v> (body cut short)  F/<v>  A  R/<key>/<v> (generic forward arm)
+               MC/<v>/<req> (client hangs up without reading)
+               G/<key>/<v> (group routing)  P  E (produce / fetch, raw)  X/cancel  X/cancelinstore
+               X/storefail  X/storeok  X/notready  X/ready  X/kill
+        output: conn <outcome> ;; ... ;; log=<key:corr,..|->   (see harness/C28/.../zz_verif_c28conn.go)
 `snap` changes the snapshot of the SAME proxy (`InMemoryStore.Update`); the state between two `cfg`
 lines is a `Session` of the model (current snapshot + ghost cache) advanced with `advance`, and
 every reply is `replyWith` of that session, i.e. a function of the CURRENT snapshot.
@@ -21,6 +28,7 @@ evaluates the property predicates of KafVerif.Props.C28 (`onlyProxy`, `expectedS
 itself is answered with the model's output, so one run serves correspondence and monitor).
 -/
 open KafVerif KafVerif.ProxyMetadata
+open KafVerif.ProxyDispatch (Conn Outcomes Obs)
 
 def encS (s : String) : String := if s.isEmpty then "^" else s
 def decS (s : String) : String := if s = "^" then "" else s
@@ -121,8 +129,166 @@ def wireShape (v : Nat) (x : Shape) : Shape :=
   ((if v ≥ 12 then x.1 else some (x.1.getD "")), (if v ≥ 10 then x.2.1 else .zero), x.2.2.1, (if v ≥ 1 then x.2.2.2.1 else false),
     x.2.2.2.2.map fun p => (p.1, p.2.1, if v ≥ 7 then p.2.2 else -1))
 
+
+/-! ### connection-level sessions
+
+The WORLD around `handleConnection` in the harness (scripted backends, injected failures) decides the
+outcome of every callee; the dispatch model (`ProxyDispatch.step`) decides what the loop does with
+it.  `connect` mirrors `connectBackendExcluding` (one attempt) + `currentBackends`. -/
+
+structure World where
+  storeMode : Bool := false
+  live : Nat := 0
+  cached : Bool := false
+  cancelled : Bool := false
+  pendingCancel : Bool := false
+  storeFail : Bool := false
+  ready : Bool := true
+  linkAlive : Bool := false
+  conn : Conn := .fresh
+
+/-- one `store.Metadata` call through the harness wrapper -/
+def World.storeCall (w : World) : World × Bool :=
+  let w := if w.pendingCancel then { w with cancelled := true, pendingCancel := false } else w
+  (w, !w.cancelled && !w.storeFail)
+
+/-- `connectBackendExcluding` with `backendRetries = 1` -/
+def World.connect (w : World) : World × Bool :=
+  if !w.storeMode then (w, !w.cancelled && w.live > 0)
+  else
+    let (w, ok) := w.storeCall
+    if ok then
+      let w := { w with cached := true, ready := true }   -- setCachedBackends, touchHealthy, setReady(true)
+      (w, !w.cancelled && w.live > 0)
+    else if w.cached then (w, !w.cancelled && w.live > 0)
+    else (w, false)
+
+def World.connectN (w : World) : Nat → World × Bool
+  | 0 => (w, false)
+  | n + 1 => let (w, ok) := w.connect; if ok then (w, true) else w.connectN n
+
+/-- api keys `buildNotReadyResponse` has an arm for -/
+def notReadyKeys : List Nat := [3, 10, 0, 1, 2, 11, 14, 12, 13, 8, 9, 23, 15, 16, 32, 33, 37, 19, 20, 42]
+
+def baseOutcomes (w : World) : Outcomes :=
+  { ready := w.ready, handlerOk := true, noReply := false, notReadyOk := true, writeOk := true,
+    connectOk := true, forwardOk := true, reconnectOk := true, forward2Ok := true }
+
+inductive StepKind where
+  | x | apiv | hangup
+  | mreq (v : Nat) (req : Option (List ReqTopic))
+  | metaCut (v : Nat)
+  | coord
+  | other
+deriving Inhabited
+
+/-- One step token: the new world, the step's kind, and for a request its api key + events. -/
+def connStep (w : World) (tok : String) : Option (World × StepKind × Option (Nat × List ProxyDispatch.Event)) :=
+  let serving := w.conn.isOpen && w.ready
+  let fin (w : World) (kind : StepKind) (k : Nat) (o : Outcomes) :=
+    let r := ProxyDispatch.step w.conn k o
+    some ({ w with conn := r.1 }, kind, some (k, r.2))
+  match tok.splitOn "/" with
+  | ["X", "cancel"] => some ({ w with cancelled := true }, .x, none)
+  | ["X", "cancelinstore"] => some ({ w with pendingCancel := true }, .x, none)
+  | ["X", "storefail"] => some ({ w with storeFail := true }, .x, none)
+  | ["X", "storeok"] => some ({ w with storeFail := false }, .x, none)
+  | ["X", "notready"] => some ({ w with ready := false }, .x, none)
+  | ["X", "ready"] => some ({ w with ready := true }, .x, none)
+  | ["X", "kill"] => some ({ w with linkAlive := false }, .x, none)
+  | ["A"] =>
+    let r := ProxyDispatch.step w.conn 18 (baseOutcomes w)
+    some ({ w with conn := r.1 }, .apiv, some (18, r.2))
+  | ["M", v, r] => do
+    let v ← v.toNat?
+    let req ← parseReq r
+    let (w, ok) := if serving then w.storeCall else (w, true)
+    fin w (.mreq v req) 3 { baseOutcomes w with handlerOk := ok }
+  | ["MC", v, r] => do
+    -- the client hangs up without reading: the proxy's write of whatever it answers fails
+    let _ ← v.toNat?
+    let _ ← parseReq r
+    if !w.conn.isOpen then some (w, .other, some (3, []))
+    else
+      let (w, ok) := if serving then w.storeCall else (w, true)
+      fin w .hangup 3 { baseOutcomes w with handlerOk := ok, writeOk := false }
+  | ["MB", v] => do
+    let v ← v.toNat?
+    fin w (.metaCut v) 3 { baseOutcomes w with handlerOk := false, notReadyOk := false }
+  | ["F", _] => fin w .coord 10 (baseOutcomes w)
+  | ["R", k, _] => do
+    let k ← k.toNat?
+    let nr := notReadyKeys.contains k
+    if !serving then fin w .other k { baseOutcomes w with notReadyOk := nr }
+    else if !w.conn.link then
+      let (w, ok) := w.connect
+      fin { w with linkAlive := ok } .other k { baseOutcomes w with notReadyOk := nr, connectOk := ok }
+    else if w.linkAlive then fin w .other k { baseOutcomes w with notReadyOk := nr }
+    else
+      let (w, ok) := w.connect
+      fin { w with linkAlive := ok } .other k { baseOutcomes w with notReadyOk := nr, forwardOk := false, reconnectOk := ok }
+  | ["G", k, _] => do
+    let k ← k.toNat?
+    if !serving then fin w .other k (baseOutcomes w)
+    else
+      let (w, ok) := w.connectN (if k = 15 then 1 else 3)
+      fin w .other k { baseOutcomes w with handlerOk := ok }
+  | [pe] =>
+    if pe = "P" || pe = "E" then
+      let k := if pe = "P" then 0 else 1
+      if !serving then fin w .other k (baseOutcomes w)
+      else
+        let (w, ok) := w.connect
+        fin w .other k { baseOutcomes w with handlerOk := ok }
+    else none
+  | _ => none
+
+/-- what the client prints for a step -/
+def connOutcome (s : St) (kind : StepKind) (evs : Option (Nat × List ProxyDispatch.Event)) : String :=
+  match kind, evs with
+  | .x, _ => "x"
+  | .hangup, _ => "hangup"
+  | _, none => "bad-op"
+  | kind, some (_, evs) =>
+    match ProxyDispatch.observe evs, kind with
+    | .closed, _ => "closed"
+    | .nothing, _ => "closed"
+    | .backendReply, _ => "relay"
+    | .localReply, .apiv => "apiv"
+    | .localReply, .mreq v req => "meta " ++ showMeta (wire v (sessReply s req))
+    | .localReply, .coord => "coord " ++ showCoord (findCoordinator s.host s.port)
+    | .notReadyReply, .mreq v req => "meta " ++ showMeta (wire v (notReadyMetadata req))
+    | .notReadyReply, .coord => "coord " ++ showCoord notReadyCoordinator
+    | .notReadyReply, .other => "errreply"
+    | _, _ => "model-impossible"
+
+def connModel (s : St) (ws : List String) : String :=
+  match ws with
+  | mode :: live :: _dead :: cached :: steps =>
+    match (kv [live] "live").bind String.toNat? with
+    | none => "bad-op"
+    | some nl =>
+      let w0 : World := { storeMode := mode = "mode=store", live := nl, cached := cached = "cached=1" }
+      let rec go (w : World) (i : Nat) (toks : List String) (outs logs : List String) : Option (List String × List String) :=
+        match toks with
+        | [] => some (outs.reverse, logs.reverse)
+        | t :: rest =>
+          match connStep w t with
+          | none => none
+          | some (w', kind, evs) =>
+            let logs := match evs with
+              | some (k, e) => if ProxyDispatch.reachedBackend e then s!"{k}:{1000 + i}" :: logs else logs
+              | none => logs
+            go w' (i + 1) rest (connOutcome s kind evs :: outs) logs
+      match go w0 0 steps [] [] with
+      | none => "bad-op"
+      | some (outs, logs) =>
+        "conn " ++ joinWith " ;; " (outs ++ ["log=" ++ (if logs.isEmpty then "-" else joinWith "," logs)])
+  | _ => "bad-op"
+
 def modelStep (s : St) (ws : List String) : St × String :=
   match ws with
+  | "conn" :: rest => (s, connModel s rest)
   | ["cfg", h, p] => match p.toInt? with
     | some p => ({ s with host := decS h, port := p, sess := ⟨emptyMeta, []⟩ }, "ok")
     | none => (s, "bad-op")
@@ -180,6 +346,55 @@ def metaBad (s : St) (v : Nat) (req : Option (List ReqTopic)) (impl : Meta) : Li
 def discriminates (s : St) (v : Nat) (req : Option (List ReqTopic)) : Bool :=
   cachedShapes s v req != (expectedShapes s.store req).map (wireShape v)
 
+
+/-- split a token list at a separator token -/
+def splitAt (sep : String) (ws : List String) : List (List String) :=
+  ws.foldr (fun w acc => if w = sep then [] :: acc else match acc with
+    | h :: t => (w :: h) :: t
+    | [] => [[w]]) [[]]
+
+/-- Property monitor for one connection: every Metadata / FindCoordinator reply the client received
+names only the proxy (or is the not-ready reply that names nobody), or the connection was closed;
+the backends never received a Metadata / FindCoordinator request. -/
+def connBad (s : St) (steps : List String) (outs : List (List String)) : List String :=
+  let n := steps.length
+  if outs.length != n + 1 then ["conn-unparsable-reply"] else
+  let perStep := (steps.zip (outs.take n)).foldl (fun bad (tok, out) =>
+    bad ++ (match tok.splitOn "/", out with
+      | "X" :: _, _ => []
+      | _, ["closed"] => []
+      | "MC" :: _, ["hangup"] => []
+      | ["M", v, r], "meta" :: body => match v.toNat?, parseReq r, parseMeta body with
+        | some v, some req, some impl =>
+          let nr := namesNobody impl && impl.topics.map (fun t => (t.name, t.tid, t.err)) ==
+            (req.getD []).map (fun t => ((if v ≥ 12 then t.name else some (t.name.getD "")), (if v ≥ 10 then t.tid else .zero), REQUEST_TIMED_OUT))
+          if nr then [] else (metaBad s v req impl).map ("conn-" ++ ·)
+        | _, _, _ => ["conn-unparsable-reply"]
+      | ["MB", v], "meta" :: body => match v.toNat?, parseMeta body with
+        | some v, some impl =>
+          let impl' := { impl with controller := if v ≥ 1 then impl.controller else 0 }
+          if namesNobody impl || onlyProxy impl' s.host s.port then ["conn-malformed-metadata-answered"]
+          else ["conn-names-non-proxy-broker", "conn-malformed-metadata-answered"]
+        | _, _ => ["conn-unparsable-reply"]
+      | ["F", _], "coord" :: body => match parseCoord body with
+        | some c => if c == findCoordinator s.host s.port || (c.node == -1 && c.err == REQUEST_TIMED_OUT && c.host == "") then []
+                    else ["conn-coordinator-not-proxy"]
+        | none => ["conn-unparsable-reply"]
+      | ["A"], ["apiv"] => []
+      | "R" :: _, [o] => if o = "relay" || o = "errreply" then [] else ["conn-unexpected-outcome"]
+      | "G" :: _, [o] => if o = "relay" || o = "errreply" then [] else ["conn-unexpected-outcome"]
+      | ["P"], [o] => if o = "relay" || o = "errreply" then [] else ["conn-unexpected-outcome"]
+      | ["E"], [o] => if o = "relay" || o = "errreply" then [] else ["conn-unexpected-outcome"]
+      | _, _ => ["conn-unexpected-outcome"])) []
+  let logBad := match outs.getLast? with
+    | some [l] =>
+      if !l.startsWith "log=" then ["conn-unparsable-reply"] else
+      let body := (l.drop 4).toString
+      if body = "-" then [] else
+      if (body.splitOn ",").any (fun e => e.startsWith "3:" || e.startsWith "10:") then ["conn-metadata-sent-to-backend"] else []
+    | _ => ["conn-unparsable-reply"]
+  (perStep ++ logBad).eraseDups
+
 def monitorStep (s : St) (ws : List String) : St × String :=
   match ws with
   | ">" :: out =>
@@ -189,6 +404,7 @@ def monitorStep (s : St) (ws : List String) : St × String :=
           let r := verdict (metaBad s v req impl)
           if r = "ok" && discriminates s v req then "ok cache-would-differ" else r
         | _, _, _ => "violation unparsable-reply"
+      | "conn" :: _ :: _ :: _ :: _ :: steps, "conn" :: rest => verdict (connBad s steps (splitAt ";;" rest))
       | "par" :: items, "par" :: rest =>
         let replies := splitBars rest
         if replies.length != items.length then "violation unparsable-reply" else
